@@ -363,15 +363,20 @@ Section Sound.
 
   Variable root : expr.
 
+  (** [tested a]: [a] is the operand of a None-test of the invariant — the only expressions
+      whose canonical representation ever becomes a non-null key. *)
+  Definition tested (a : expr) : Prop :=
+    In (IsNone a) (subs root) \/ In (IsNotNone a) (subs root).
+
   Definition keys_inj : Prop :=
-    forall a b, In a (subs root) -> In b (subs root) -> canon a = canon b -> a = b.
+    forall a b, tested a -> In b (subs root) -> canon a = canon b -> a = b.
 
   Hypothesis Hinj : keys_inj.
   Hypothesis HS : symtab_ok.
 
   Definition KI (G : tenv) (K : list text) (r : env) : Prop :=
     forall k, In k K ->
-      exists e0, canon e0 = k /\ In e0 (subs root) /\ stable G e0
+      exists e0, canon e0 = k /\ tested e0 /\ stable G e0
                  /\ eval r e0 fuel <> Val VNone.
 
   Definition P (e : expr) : Prop :=
@@ -614,7 +619,7 @@ Section Sound.
   Proof.
     intros G K r v tv Hin Hincl Hi (w & Hev & Htr) k [<-|[]].
     exists v. split; [reflexivity|]. split.
-    { apply Hincl. cbn. right. apply subs_self. }
+    { right. exact Hin. }
     split.
     { cbn in Hi. destruct (infer false S G K v) as [t0|] eqn:Hv; [|discriminate].
       apply Hstable. exists K, t0. exact Hv. }
@@ -630,7 +635,7 @@ Section Sound.
   Proof.
     intros G K r v tv Hincl Hi (w & Hev & Htr) k [<-|[]].
     exists v. split; [reflexivity|]. split.
-    { apply Hincl. cbn. right. apply subs_self. }
+    { left. apply Hincl. apply subs_self. }
     split.
     { cbn in Hi. destruct (infer false S G K v) as [t0|] eqn:Hv; [|discriminate].
       apply Hstable. exists K, t0. exact Hv. }
